@@ -2,7 +2,7 @@ import GqlProofs.ValSpec.Spreads
 import GqlProofs.ValSpec.LeafFrag
 import GqlProofs.ValSpec.DefDirs
 import GqlProofs.ValSpec.LinkWitness
-import GqlProofs.ValSpec.CustomScalar
+import GqlProofs.ValSpec.DumpLine
 import GqlProofs.Props.C08
 import GqlModel.Validate.Spec.Links
 /-
@@ -365,9 +365,9 @@ theorem linkRules_of_valid (s : Schema) (d : QueryDoc) (hvalid : validate defaul
     Types and KnownTypeNames enforce together); `hk` — operation kinds the parser produces; `hpos` —
     fragment definitions have distinct positions (every parse); `hString` — the schema has the
     built-in `String` (the type of `__typename`; every loaded schema).
-    Not covered: that the contents of a list / object literal are untyped ONLY inside a custom-scalar
-    literal needs ValuesOfCorrectType (no equivalence theorem yet); the statement here demands of
-    untyped values exactly what `Spec.valueLinks` demands — nothing. -/
+    That the contents of a list / object literal are untyped ONLY inside a custom-scalar literal is
+    `C09_untyped_values_only_in_custom_scalars` (hypothesis ValuesOfCorrectType); the same statement
+    in the terms of `linkscheck` (dump lines) is `C09_expected_links_met`. -/
 theorem C09_links_correct (s : Schema) (d : QueryDoc) (evs : List Event) (hw : walkDoc s.view d = some evs)
     (hvalid : validate defaultRules s d = .ok []) (hs : Gql.Spec.Closed s)
     (hString : (s.type? (str "String")).isSome) (hwp : Spec.wellParented s d = true)
@@ -383,6 +383,72 @@ theorem C09_links_correct (s : Schema) (d : QueryDoc) (evs : List Event) (hw : w
     (∀ dm ∈ docDemands s d, dm.Present s d) :=
   ⟨expectedLinks_eq s d, docDemands_met s d evs hw hwp hk, docDemands_var_met s d evs hw hwp hpos,
    docDemands_present s d hs hString (linkRules_of_valid s d hvalid hwp hk hKnownRootType hKnownTypeNames)⟩
+
+/-- (e) in the terms of `linkscheck`: for every expected link `x` of `Spec.expectedLinks s d` other
+    than an inline fragment's (the known finding) the run has an event whose dump line — as data,
+    `Event.linkFields`; `Event.linkLine`, which `linkDump` prints, is its formatting (`linkLine_eq`) —
+    has the start offset and kind of `x` and contains every demanded field with exactly the
+    demanded text; and if `x` is a variable use with at least one admissible candidate, such an
+    event shows one of the candidates as `var=`.  (What `linkscheck` adds to this is parsing the
+    printed lines back and choosing the LAST line of every node, see the header.) -/
+theorem C09_expected_links_met (s : Schema) (d : QueryDoc) (evs : List Event) (hw : walkDoc s.view d = some evs)
+    (hwp : Spec.wellParented s d = true) (hk : ∀ op ∈ d.ops, op.op ∈ parserOpKinds) (hpos : FragPosDistinct d) :
+    ∀ x ∈ Spec.expectedLinks s d, x.kind ≠ "I" →
+      (∃ e ∈ evs, ∃ fs, e.linkFields = some (x.start, x.kind, fs) ∧
+        e.linkLine = some (x.start, fmtLine x.kind fs) ∧ ∀ kv ∈ x.fields, kv ∈ fs) ∧
+      (∀ cs, x.varCands = some cs → cs ≠ [] →
+        ∃ e ∈ evs, ∃ fs, e.linkFields = some (x.start, x.kind, fs) ∧ (∀ kv ∈ x.fields, kv ∈ fs) ∧
+          ∃ got, ("var", got) ∈ fs ∧ got ∈ cs) := by
+  intro x hx hkind
+  rw [expectedLinks_eq, List.mem_map] at hx
+  obtain ⟨dm, hdm, rfl⟩ := hx
+  have hni : ∀ f parent, dm ≠ .inline f parent := by
+    intro f parent heq
+    subst heq
+    exact hkind rfl
+  constructor
+  · obtain ⟨e, he, fs, hf, hall⟩ := met_line s d evs dm (docDemands_met s d evs hw hwp hk dm hdm) hni
+    exact ⟨e, he, fs, hf, by rw [linkLine_eq, hf]; rfl, hall⟩
+  · intro cs hcs hne
+    cases dm with
+    | value cands o =>
+      cases hv : o.v with
+      | mk k raw ch p =>
+        simp only [Demand.render, ValOcc.toExpLink, hv, Value.kind, Value.raw] at hcs
+        split at hcs
+        · rename_i hk'
+          injection hcs with hcs
+          have hkv : k = .variable := by simpa using hk'
+          subst hkv
+          rcases docDemands_var_met s d evs hw hwp hpos _ hdm cands o raw ch p rfl hv with hnil | ⟨e, he, ⟨exp, dfn, hp, hag⟩, hmem⟩
+          · rw [hnil] at hcs
+            exact absurd hcs.symm hne
+          · refine ⟨e, he, [("def", optDefName dfn), ("exp", typeText exp), ("var", varText (e.links.varDef p.start))], ?_, ?_, ?_⟩
+            · unfold Event.linkFields
+              rw [hp, hv]
+              simp only [Demand.render, ValOcc.toExpLink, hv, Value.pos]
+            · intro kv hkv
+              simp only [Demand.render, ValOcc.toExpLink] at hkv
+              cases ht : o.typed with
+              | false => rw [ht] at hkv; simp at hkv
+              | true =>
+                rw [ht] at hkv
+                obtain ⟨h1, h2⟩ := hag ht
+                subst h1 h2
+                simp only [if_true, List.mem_cons, List.not_mem_nil, or_false] at hkv
+                rcases hkv with hkv | hkv
+                · subst hkv
+                  simp [optDefName_eq]
+                · subst hkv
+                  cases o.exp <;> simp [typeText]
+            · exact ⟨varText (e.links.varDef p.start), by simp, by rw [← hcs]; exact hmem⟩
+        · cases hcs
+    | field f parent => simp [Demand.render] at hcs
+    | spread f => simp [Demand.render] at hcs
+    | inline f parent => simp [Demand.render] at hcs
+    | directive dir loc => simp [Demand.render] at hcs
+    | varDef v => simp [Demand.render] at hcs
+    | fragDef f => simp [Demand.render] at hcs
 
 /-- (a)/(e), "contents of custom-scalar literals excepted": in a document that passes validation
     and satisfies ValuesOfCorrectType (hypothesis named after the rule, which has no equivalence
@@ -519,4 +585,5 @@ end NonVacuity
 #print axioms C09_inline_fragment_link_is_parent
 #print axioms C09_inline_fragment_link_counterexample
 #print axioms C09_links_correct
+#print axioms C09_expected_links_met
 #print axioms C09_untyped_values_only_in_custom_scalars
